@@ -440,6 +440,9 @@ def cholesky2(A):
         d = A[j, j]
         for k in range(j):
             d = d - L[j, k] * L[j, k]
+        if d.is_zero():
+            # an identically zero pivot: the Gram matrix is singular for EVERY value of the indeterminates (rank < dim)
+            raise Declined("LinAlgError", "Matrix is not positive definite")
         L[j, j] = d.sqrt()
         for i in range(j + 1, n):
             v = A[i, j]
